@@ -255,7 +255,9 @@ def randoms(ctx, n):
     ms = []
     pool = ALPHABET + ["..", "../", "..\\", "%2e", "%2E", "%2f", "%2F", "%5c", "%5C", "%25", "dir", "model", ".fga", ".FGA", ".Fga", ".fga.", "é", " "]
     specials = [("42", None), ("true", None), ("null", None), ("{a: b}", None), ("[x.fga]", None), ("!!str 12", b"12"),
-                ("1.5", None), ("&anchor a.fga", b"a.fga"), ("~", None)]
+                ("1.5", None), ("&anchor a.fga", b"a.fga"), ("~", None),
+                # a value that ends in a line break: it does not end in ".fga"
+                ("\"core.fga\\n\"", b"core.fga\n"), ("core.fga%0A", b"core.fga%0A"), ("'core.fga%0d%0a'", b"core.fga%0d%0a")]
     for i in range(n):
         entries = []
         for _ in range(rng.choice([1, 1, 2, 3, 6])):
